@@ -4,7 +4,9 @@
    c12/CliEncode.v (/repo/cli/encoder.go, color.go); reference vocabulary: c12/JsonRef.v. *)
 From Coq Require Import String.
 From Coq Require Import ZArith List NArith.
-From Verif Require Import common.Sexp c12.Utf8 c12.JsonRef c12.Encode c12.CliEncode c12.Utf8Proofs c12.StrProofs.
+From Coq Require Import Sorted Permutation.
+From Verif Require Import common.Sexp c12.Utf8 c12.JsonRef c12.Encode c12.CliEncode c12.CliPure c12.Utf8Proofs c12.StrProofs
+  c12.NumProofs c12.SortProofs c12.ValueProofs c12.IndentProofs c12.DecodeProofs.
 Import ListNotations.
 Open Scope N_scope.
 
@@ -60,6 +62,122 @@ Theorem C12_table_3_7_complete : forall cp r, scalar cp ->
 Proof. exact step_complete. Qed.
 Print Assumptions C12_table_3_7_complete.
 
+(* ---- numbers.  Integers (int and big.Int) are printed as decimal literals denoting exactly z ... *)
+Theorem C12_int_literal : forall z, number_literal (print_Z z) /\ num_denote (print_Z z) = Some (z, 0%Z).
+Proof. exact (fun z => conj (int_literal z) (num_denote_int z)). Qed.
+Print Assumptions C12_int_literal.
+
+(* ... and a literal built by the RFC 8259 grammar is accepted as a whole by the reference scanner. *)
+Theorem C12_literal_scans : forall p rest, np_ok p = true -> num_end rest = true ->
+  scan_number (np_text p ++ rest) = Some (np_text p, rest).
+Proof. exact scan_number_np. Qed.
+Print Assumptions C12_literal_scans.
+
+(* Floats.  strconv.AppendFloat is not gojq's code: [fmt_float] with the hypothesis fmt_shape ('e': [-]d[.d+]e(+|-)dd+,
+   'f': [-]d+[.d+]).  gojq's part: NaN -> null (in [encode_float] / [norm]), +-Inf clamped to +-MaxFloat64, format
+   choice, e-09 -> e-9.  The text is a JSON number literal that denotes what strconv printed for the clamped
+   float in the chosen format (the clean-up changes no value) ... *)
+Theorem C12_float_literal : forall fmt_float,
+  (forall f e, finite f -> fnum_shape e (fmt_float f e) = true) ->
+  forall b, is_nan b = false ->
+  number_literal (encode_float fmt_float b) /\
+  num_denote (encode_float fmt_float b) = Some (fnum_den (fmt_float (clamp b) (fmt_is_e (clamp b)))).
+Proof. exact (fun fmt H b Hb => conj (encode_float_literal fmt H b Hb) (encode_float_denote fmt H b Hb)). Qed.
+Print Assumptions C12_float_literal.
+
+(* ... hence, if strconv's digits parse back to the float they were printed from (fmt_round; checked on the
+   implementation by the harness), gojq's text parses back to the clamped float. *)
+Theorem C12_float_round_trip : forall fmt_float,
+  (forall f e, finite f -> fnum_shape e (fmt_float f e) = true) ->
+  forall parse_float : Z * Z -> N,
+  (forall f e, finite f -> parse_float (fnum_den (fmt_float f e)) = f) ->
+  forall b, is_nan b = false ->
+  option_map parse_float (num_denote (encode_float fmt_float b)) = Some (clamp b).
+Proof. exact encode_float_round. Qed.
+Print Assumptions C12_float_round_trip.
+
+Theorem C12_nan_is_null : forall fmt_float b, is_nan b = true -> encode_float fmt_float b = txt_null.
+Proof. intros fmt_float b H. unfold encode_float. rewrite H. reflexivity. Qed.
+Print Assumptions C12_nan_is_null.
+
+(* the e-09 clean-up, on the structured form: only a two-digit negative exponent with a leading zero changes *)
+Theorem C12_cleanup : forall x, fnum_shape true x = true -> cleanup (fnum_text x) = fnum_text (cleanup_fnum x).
+Proof. exact cleanup_fnum_text. Qed.
+Print Assumptions C12_cleanup.
+
+(* ---- objects: members are written in ascending bytewise key order, each exactly once *)
+Theorem C12_keys_sorted : forall (m : list (list N * value)),
+  Sorted key_le (sort_kvs m) /\ Permutation (sort_kvs m) m.
+Proof. exact (fun m => conj (sort_sorted m) (sort_perm m)). Qed.
+Print Assumptions C12_keys_sorted.
+
+(* ---- (b) decode (encode v) = Some (norm v) for every well-formed value: NaN -> null, strings and keys
+   sanitized, members in key order, numbers as the literals characterised above.  Library encoder
+   (gojq.Marshal, tojson, @json; tostring/@text on non-strings) ... *)
+Theorem C12_decode_encode : forall fmt_float,
+  (forall f e, finite f -> fnum_shape e (fmt_float f e) = true) ->
+  forall v, wfv v -> json_decode (encode fmt_float v) = Some (norm fmt_float v).
+Proof. exact decode_encode. Qed.
+Print Assumptions C12_decode_encode.
+
+(* ... and every layout of the command's encoder (compact, indent n, tab; colour on with any table of SGR
+   sequences or off), after removing the SGR sequences. *)
+Theorem C12_decode_cli : forall fmt_float,
+  (forall f e, finite f -> fnum_shape e (fmt_float f e) = true) ->
+  forall o v, wf_colors (o_colors o) -> wfv v ->
+  json_decode (strip_sgr (cli_marshal fmt_float o v)) = Some (norm fmt_float v).
+Proof. exact decode_cli. Qed.
+Print Assumptions C12_decode_cli.
+
+(* ---- (c) indentation.  writeIndentInternal n appends exactly n copies of the unit, for EVERY n (the
+   block of 16 tabs / 32 spaces followed by the doubling self-copy loop) ... *)
+Theorem C12_indent_writer : forall unit blk n st, (0 < blk)%nat ->
+  let st' := write_indent_internal n (repeat unit blk) st in
+  c_buf st' = c_buf st ++ repeat unit n /\ c_out st' = c_out st /\ c_depth st' = c_depth st.
+Proof. exact wii_spec. Qed.
+Print Assumptions C12_indent_writer.
+
+(* ... the stateful encoder (buffer, 8 KiB flushes, depth counter) appends exactly the pure text [pp] and
+   restores the depth, whatever the flush history: chunking does not change the concatenation ... *)
+Theorem C12_encoder_pure : forall fmt_float o v st,
+  let st' := c_encode fmt_float o v st in
+  c_out st' ++ c_buf st' = c_out st ++ c_buf st ++ pp fmt_float o (c_depth st) v /\ c_depth st' = c_depth st.
+Proof.
+  intros fmt_float o v st. destruct (c_encode_pp fmt_float o v st) as [H1 H2]. unfold total in H1.
+  cbn zeta. rewrite H1, <- app_assoc. auto.
+Qed.
+Print Assumptions C12_encoder_pure.
+
+(* ... and every line of an indented output starts with exactly depth * indent unit bytes ([indent_ok],
+   JsonRef.v: depth = number of open brackets, a closing bracket is one level up; no empty line). *)
+Theorem C12_indent_exact : forall fmt_float,
+  (forall f e, finite f -> fnum_shape e (fmt_float f e) = true) ->
+  forall o, (0 <= o_indent o)%Z -> forall v, wf_colors (o_colors o) -> wfv v ->
+  indent_ok (if o_tab o then 9 else 32) (Z.to_nat (o_indent o)) (strip_sgr (cli_marshal fmt_float o v)) = true.
+Proof.
+  intros fmt_float Hf o Hi v Hc Hv. rewrite cli_marshal_pp.
+  pose proof (pp_strip_sgr fmt_float Hf o Hc v Hv 0%Z []) as H. rewrite !app_nil_r in H. rewrite H.
+  apply (indent_exact fmt_float Hf o); [apply Z.leb_le, Hi|exact Hv].
+Qed.
+Print Assumptions C12_indent_exact.
+
+(* ---- (d) all modes agree: SGR sequences and insignificant whitespace (outside strings) removed, the
+   command's output in every mode is the library encoder's text *)
+Theorem C12_modes_agree : forall fmt_float,
+  (forall f e, finite f -> fnum_shape e (fmt_float f e) = true) ->
+  forall o v, wf_colors (o_colors o) -> wfv v ->
+  strip_ws (strip_sgr (cli_marshal fmt_float o v)) = encode fmt_float v.
+Proof. exact modes_agree. Qed.
+Print Assumptions C12_modes_agree.
+
+(* the colour tables the command can install are well-formed: the default one ... *)
+Theorem C12_default_colors_wf : wf_colors default_colors.
+Proof. repeat split; try exact I; eexists; (split; [reflexivity|reflexivity]). Qed.
+Print Assumptions C12_default_colors_wf.
+
+(* The clause of the property that is NOT proved: text written with --yaml-output reads back with
+   --yaml-input as the same value (go-yaml is outside /repo; only exercised by the harness). *)
+
 (* non-vacuity: a string with a control byte, a quote, DEL, a surrogate encoded in UTF-8 (invalid: three
    bytes replaced one by one), U+2028 (kept raw) and a truncated sequence *)
 Example C12_nonvacuous :
@@ -71,3 +189,15 @@ Proof.
   cbv zeta. split; [|split; vm_compute; reflexivity].
   unfold bytes. repeat (apply Forall_cons; [reflexivity|]). apply Forall_nil.
 Qed.
+
+(* non-vacuity of the value theorems: a well-formed value with every kind of node, and a float oracle that
+   satisfies fmt_shape on the floats used *)
+Example C12_nonvacuous_value :
+  let v := VObj [([98], VArr [VNull; VBool true; VInt (-5); VLit (codes "1.50"%string); VStr [0xFF]]); ([97], VObj [])] in
+  let o := {| o_tab := false; o_indent := 2; o_nocolor := false; o_colors := default_colors |} in
+  let fmt := fun (_ : N) (_ : bool) => {| fneg := false; fint := [48]; ffrac := []; fexp := None |} in
+  encode fmt v = codes "{""a"":{},""b"":[null,true,-5,1.50,""\ufffd""]}"%string /\
+  strip_ws (strip_sgr (cli_marshal fmt o v)) = encode fmt v /\
+  indent_ok 32 2 (strip_sgr (cli_marshal fmt o v)) = true /\
+  json_decode (encode fmt v) = Some (norm fmt v).
+Proof. cbv zeta. repeat split; vm_compute; reflexivity. Qed.
